@@ -582,14 +582,23 @@ class RnMachine(DfMachine):
         for nm, fn in (("Zero", lambda r, c: Fraction(0)), ("Identity", lambda r, c: Fraction(1 if r == c else 0))):
             f[nm] = PyFunc(lambda M, args, env, name, fn=fn: self.const(args, env, name, fn), lazy=True)
 
+    aliases = {}
+
     def const(self, args, env, name, fn):
         t = (name or "").replace(" ", "")
+        # member type aliases of the traits class (using TMap = Eigen::Matrix<Scalar, Dof, Dof>;)
+        for _ in range(4):
+            m0 = re.match(r"^(\w+)::(\w+)$", t)
+            if m0 and m0.group(1) in self.aliases:
+                t = self.aliases[m0.group(1)].replace(" ", "").replace("typename", "") + "::" + m0.group(2)
+            else:
+                break
         m = re.match(r"^(?:Eigen::)?Matrix<\w+,(.*)>::(\w+)$", t)
         vals = [int(simp(self.rv(self.ev(a, env)))) for a in args]
         if m:
             parts = _split(m.group(1))
             sr, sc = (int(simp(self.rv(self.ev(self.parse_cond(p), env)))) for p in parts[:2])
-        elif re.match(r"^(G|PlainObject)::\w+$", t):
+        elif re.match(r"^(?:Eigen::)?Vector<\w+,(\w+)>::\w+$", t) or re.match(r"^(G|PlainObject)::\w+$", t):
             sr, sc = int(simp(self.rv(self.ev(("ref", "Dof", None), env)))), 1
             vals = vals + [1] if len(vals) == 1 else vals
         else:
@@ -631,6 +640,11 @@ def check_rn(rep):
     if len(decls) < 10:
         rep.broke("T1.dyn: %d members of traits::lie<RnType> found in lie_groups/rn.hpp" % len(decls))
         return
+    RnMachine.aliases = {}
+    for o in fe.ast_dump("traits::lie"):
+        for x in A.walk(o):
+            if x.get("kind") == "TypeAliasDecl" and (A.loc(x)[0] or "").endswith("lie_groups/rn.hpp"):
+                RnMachine.aliases[x.get("name")] = x.get("type", {}).get("qualType", "")
     n = 3
     eye = {(i, j): Fraction(1 if i == j else 0) for i in range(n) for j in range(n)}
     zero = lambda r, c: {(i, j): Fraction(0) for i in range(r) for j in range(c)}
